@@ -160,8 +160,9 @@ def oracle_C02(hi, ops, obs):
                 q = b['qry'].get(v['op'])
                 exp[v['key']] = None if q in (None, 'err') else int(q)
         if exp != b['comet']:
+            # later blocks inherit a divergence; they are still listed, so that a *different* divergence later in the
+            # same history is not hidden behind a known one (the check compares the details with the model's)
             out.append(Viol(hi, b['h'], 'set-mismatch', f"comet={sorted(b['comet'].items())} chain={sorted(exp.items())}"))
-            break   # later blocks inherit the divergence
     return out
 
 def oracle_C04(hi, ops, obs):
@@ -344,7 +345,7 @@ def oracle_C11(hi, ops, obs):
         notb = sum(v['tokens'] for v in b['vals'].values() if v['status'] != 3)
         if b['pool'][0] != bonded or b['pool'][1] != notb:
             out.append(Viol(hi, b['h'], 'pool-mismatch', f"pools={b['pool'][:2]} tokens(bonded)={bonded} tokens(other)={notb}"))
-            break
+            continue
         prev = obs[j-1]
         if prev.get('pool') and prev['vals']:
             # supply delta = sum over validators of token change (PoA assignments, slashing burns); nothing else
@@ -352,12 +353,17 @@ def oracle_C11(hi, ops, obs):
             tok_now = sum(v['tokens'] for v in b['vals'].values())
             if b['pool'][2] - prev['pool'][2] != tok_now - tok_prev:
                 out.append(Viol(hi, b['h'], 'supply-delta', f"supply {prev['pool'][2]}->{b['pool'][2]} tokens {tok_prev}->{tok_now}"))
-                break
     return out
 
 def oracle_C13(hi, ops, obs):
     out = []
     for j, b in enumerate(obs):
+        if j > 0 and b['halt'] and j - 1 < len(ops['blocks']):
+            # the block carrying an unjail fails (a failed block reports no transaction results): the validator does not return
+            ob = ops['blocks'][j-1]
+            for i, tx in enumerate(ob['txs']):
+                if (i >= len(b['txr']) or b['txr'][i] == 'ok') and any(lf.kind == 'UNJAIL' for m in tx['msgs'] for lf in m.flat()):
+                    out.append(Viol(hi, b['h'], 'unjail-block-fails', f"tx {i} unjail, block ends with {b['halt']}"))
         if j == 0 or b['halt'] or b['comet'] is None or not b['vals']:
             continue
         prev = obs[j-1]
@@ -522,6 +528,10 @@ def oracle_C01(hi, ops, obs):
                     for lf in m.flat():
                         if lf.kind == 'SETPOWER' and int(lf.args[0]) in pending_before:
                             admitted.add(int(lf.args[0]))
+            if tx['signer'] == -1 and res == 'poa:3' and not any(m.kind in ('EXEC', 'GROUPPROP', 'GOVPROP') for m in tx['msgs']):
+                # the configured admin (environment override in this harness) is refused as "not an authority": somebody
+                # else holds the authority
+                out.append(Viol(hi, b['h'], 'configured-admin-rejected', f"tx {i} {tx['msgs']} -> {res}"))
             if tx['signer'] == -1 or res == 'sdk:32': continue
             leaves = [lf for m in tx['msgs'] for lf in m.flat()]
             gated = [lf for lf in leaves if lf.kind in ('SETPOWER', 'RMPENDING', 'PARAMS')]
